@@ -124,6 +124,15 @@ def main():
             try:
                 if inp["kind"] == "file":
                     arts = artefacts_file(inp["path"], workdir, f"{os.getpid()}_{rep}")
+                elif inp["kind"] == "filetext":
+                    vp = os.path.join(workdir, f"variant_{os.getpid()}.{inp['ext']}")
+                    with open(vp, "w") as f:
+                        f.write(inp["text"])
+                    try:
+                        arts = artefacts_file(vp, workdir, f"{os.getpid()}_{rep}")
+                    finally:
+                        with contextlib.suppress(OSError):
+                            os.remove(vp)
                 elif inp["kind"] == "mapping":
                     arts = artefacts_mapping(inp["case"])
                 else:
